@@ -10,6 +10,7 @@ Wire expectations (vendor documents):
        bit4-1 AC; byte2 bit8-5 mode (0..4, other keep), bit4-1 fan (0..6, 8 intelligent auto, other keep);
        byte3 0x40 change setpoint / 0x00 keep; byte4 setpoint*10-100 when byte3 is 0x40.
 """
+from pyvc.values import unmodelled as _unmodelled  # noqa: E402
 from pyvc import sym
 from pyvc.sym import And, Or, Not, Implies, ite
 from pyvc.vc import oset
@@ -158,7 +159,7 @@ def _init(h, g):
             def py_getattr(self, it, name):
                 if name == "subscribe":
                     return _B("zone.subscribe", lambda cb: log.append((self.k, cb)))
-                raise it.exc("AttributeError", name)
+                raise _unmodelled(self, name)
         is_zone_updated = lambda cb, a: isinstance(cb, _BM) and cb.func.name == "_zone_updated" and cb.self_obj is a  # noqa: E731
     else:
         class ZoneStub:
